@@ -13,7 +13,9 @@ RULE = ("libsbml-built Level-3 documents: 2-4 species with amount and/or concent
 TRUSTED = ["libsbml (document construction, XML, L3 formulas, renameSIdRefs) is outside the model", "hand model coq/Model/SbmlImport.v tied by correspondence on the rule loop and initial values"]
 ASSUMPTIONS = ["generated names pid_rid are fresh in the generated documents", "subset: one compartment of size 1, ordinary species, no events / function definitions / initial assignments"]
 
-LAWS = ["%(k)s * %(a)s", "%(k)s * %(a)s * %(b)s", "%(k)s * %(a)s / (%(K)s + %(a)s)", "%(k)s * %(a)s^2 / (%(K)s + %(b)s)", "%(k)s + %(K)s * %(a)s", "%(k)s * (%(a)s - %(b)s + 10)"]
+LAWS = ["%(k)s * %(a)s", "%(k)s * %(a)s * %(b)s", "%(k)s * %(a)s / (%(K)s + %(a)s)", "%(k)s * %(a)s^2 / (%(K)s + %(b)s)", "%(k)s + %(K)s * %(a)s", "%(k)s * (%(a)s - %(b)s + 10)",
+        # integer powers of a difference that is negative in some of the states (seeded change S5_C13: the power node clamped a negative base to 0)
+        "%(k)s * (%(a)s - %(b)s)^2", "%(K)s + %(k)s * (%(a)s - 3.5)^3"]
 
 def gen_case(rng):
     nsp = rng.randint(2, 4); species = ["S%d" % i for i in range(nsp)]
@@ -61,7 +63,7 @@ def gen_case(rng):
     for j in range(rng.randint(0, 4)):
         kind = rng.choice(["assignment", "rate"])
         var = "R%d" % j; extra_species.append(var)
-        formula = rng.choice(["2 * %s + 1", "%s * k", "%s + %s"]); formula = formula % tuple(rng.choice(species) for _ in range(formula.count("%s")))
+        formula = rng.choice(["2 * %s + 1", "%s * k", "%s + %s", "(%s - 2.5)^3"]); formula = formula % tuple(rng.choice(species) for _ in range(formula.count("%s")))
         rules.append({"kind": kind, "var": var, "formula": formula})
     if gv: rules.insert(rng.randint(0, len(rules)), {"kind": "assignment", "var": "gv", "formula": gv["formula"], "target": "parameter"})
     for v in extra_species: sp[v] = {"amount": 0.0, "conc": None}
